@@ -45,8 +45,9 @@ def cacheacc_cases(ctx):
     for _ in range(ctx.scale(200, 2000)):
         L = rng.choice([1, 1, 2, 3, 5, 8])
         na, nb = rng.choice([0, 1, 3, 6, 12]), rng.choice([0, 1, 3, 6, 12])
-        # interleaved arrival: a global strictly increasing clock, each observation goes to stream a or b
-        t = 100
+        # interleaved arrival: a global strictly increasing clock, each observation goes to stream a or b; the readings are small
+        # numbers or real epoch nanoseconds (1.7e18: above 2**53, a nanosecond apart — nothing may go through a float)
+        t = rng.choice([100, 100, 1700000000123456789])
         sa, sb, order = [], [], []
         ids = iter(range(10 ** 6))
         while len(sa) < na or len(sb) < nb:
@@ -76,6 +77,12 @@ def cacheacc_cases(ctx):
                 b.accumulate(('o', oid))
             reads.append(([v[1] for v in a.value], a.n))
             reads.append(([v[1] for v in b.value], b.n))
+            # a cache merged into ITSELF: what one cache holds that saw its own stream twice (same time stamps: receiver first)
+            c = A.CacheAccumulator(L)
+            for (tt, oid) in sa:
+                c.accumulate(('o', oid))
+            c.accumulate(c)
+            reads.append(([v[1] for v in c.value], c.n))
             return reads
         sc = []
         for _ in range(rng.choice([0, 1, 2, 5])):
@@ -85,12 +92,19 @@ def cacheacc_cases(ctx):
         for _ in range(rng.choice([0, 1, 2, 4])):
             t += rng.choice([1, 2])
             sd.append((t, next(ids)))
-        readings = [x[0] for x in sorted(sa + sb, key=lambda p: p[1])] + [x[0] for x in sc] + [x[0] for x in sd]
+        readings = [x[0] for x in sorted(sa + sb, key=lambda p: p[1])] + [x[0] for x in sc] + [x[0] for x in sd] + [x[0] for x in sa]
         reads, clk = with_clock(readings, run)
         case = dict(kind='CacheAccumulator', L=L, a=sa, b=sb)
         ctx.case(('acc', L, sa, sb), na > 0 and nb > 0, sample=case if na + nb <= 8 else None)
         ctx.count('cacheacc')
-        (va, ca), (vb, cb), (vm, cm), (vb2, cb2), (vc, cc), (vc2, cc2), (vd, cd) = reads
+        (va, ca), (vb, cb), (vm, cm), (vb2, cb2), (vc, cc), (vc2, cc2), (vd, cd), (vs, cs) = reads
+        wants = [x[1] for x in sa for _ in (0, 1)][-L:] if na else []
+        # equal time stamps: all of the receiver's items with that stamp first, then the other's (stable merge) — for a self-merge
+        # with distinct stamps that is x0 x0 x1 x1 …; with ties inside the stream the order among equal stamps is the stream's
+        dbl = sorted([(p[0], 0, i, p[1]) for i, p in enumerate(sa[-L:])] + [(p[0], 1, i, p[1]) for i, p in enumerate(sa[-L:])])
+        wants = [m[3] for m in dbl][-L:] if na else []
+        if vs != wants or cs != 2 * na:
+            ctx.fail('cacheacc-self-merge-wrong', 'a cache merged into itself holds %s (n=%s), expected %s (n=%d)' % (vs, cs, wants, 2 * na), case)
         if va != [x[1] for x in sa][-min(na, L):] if na else va != []:
             ctx.fail('cacheacc-not-last-k', 'value %s, the last %d of %s are %s' % (va, L, [x[1] for x in sa], [x[1] for x in sa][-L:]), case)
         if (ca, cb) != (na, nb):
@@ -167,6 +181,15 @@ def cachemax_cases(ctx):
         ctx.count('cachemax:' + ('timeout' if tmo is not None else 'plain'))
         if not ok:
             continue
+        if tmo is None:
+            c = mk()
+            for o in sa:
+                c.accumulate(o)
+            c.accumulate(c)          # merged into itself: the largest keys of its own stream taken twice
+            keys = [v[0] for v in c.value]
+            want = sorted([o[0] for o in sa] * 2)[-min(2 * na, L):] if na else []
+            if keys != want or c.n != 2 * na:
+                ctx.fail('cachemax-self-merge-wrong', 'a cache merged into itself holds keys %s (n=%s), expected %s (n=%d)' % (keys, c.n, want, 2 * na), case)
         lines.append('cache.max %d %s | %s' % (L, '-' if tmo is None else tmo, ' '.join('%d:%d:%d' % o for o in sa)))
         ra = (a.n, [v[0] for v in a.value], sorted(v[2] for v in a.value))
         rm = None
